@@ -62,6 +62,8 @@ def scenarios(ctx):
             w["stale_phase"] = rng.choice(["PS", "HP"])    # the input VCF already carries unrelated phase statements
         if rng.random() < 0.3:
             w["gt_desc"] = True                            # unphased heterozygous genotypes written 1/0
+        if rng.random() < 0.15:
+            w["first_at_zero"] = True                      # the first site on the first base of its contig
         scs.append({"world": w})
     # ---- nested phase sets with a forced recombination behind the inner set (quartets) ----
     for i in range(60 if ctx.quick else 1500):
